@@ -360,33 +360,3 @@ Proof.
   destruct (cache_run_post ord Ho g ins _ _ _ _ _ I R H) as (_ & (_ & _ & _ & R4) & _). exact R4.
 Qed.
 
-(* the syncer's reported status is always the aggregate of the last status of every cache *)
-Lemma proc_one_agg i cs ws pend r cs' ws' pend' o :
-  ws = agg cs -> proc_one i (cs, ws, pend) r = ((cs', ws', pend'), o) -> ws' = agg cs'.
-Proof.
-  intros Hw H. destruct r; cbn in H; try (inversion H; subst; reflexivity).
-  destruct (st_eqb (agg (set_nth i s cs)) ws) eqn:E; inversion H; subst; auto.
-  apply st_eqb_eq in E. congruence.
-Qed.
-Lemma proc_agg i rs : forall cs ws pend cs' ws' pend' o,
-  ws = agg cs -> proc i (cs, ws, pend) rs = ((cs', ws', pend'), o) -> ws' = agg cs'.
-Proof.
-  induction rs as [|r rs IH]; intros cs ws pend cs' ws' pend' o Hw H; cbn [proc] in H.
-  - inversion H; subst; reflexivity.
-  - destruct (proc_one i (cs, ws, pend) r) as [[[cs1 ws1] p1] o1] eqn:E1.
-    destruct (proc i (cs1, ws1, p1) rs) as [[[cs2 ws2] p2] o2] eqn:E2. inversion H; subst.
-    eapply IH; [|exact E2]. eapply proc_one_agg; eauto.
-Qed.
-Theorem syncer_status_is_agg ord gs steps : forall s s' os,
-  wstatus s = agg (cstat s) -> syncer_run ord gs s steps = Some (s', os) -> wstatus s' = agg (cstat s').
-Proof.
-  induction steps as [|[i t r outs] steps IH]; intros s s' os Hw H; cbn [syncer_run] in H.
-  - inversion H; subst; exact Hw.
-  - destruct (syncer_step ord gs s i t r) as [[s1 o1]|] eqn:E1; [|discriminate].
-    destruct (syncer_run ord gs s1 steps) as [[s2 o2]|] eqn:E2; [|discriminate]. inversion H; subst.
-    eapply IH; [|exact E2]. unfold syncer_step in E1.
-    destruct (nth_error gs i); [|discriminate]. destruct (nth_error (caches s) i); [|discriminate].
-    destruct (cache_step ord c c0 t r) as [[c1 rs]|]; [|discriminate].
-    unfold proc_all in E1. destruct (proc i (cstat s, wstatus s, []) rs) as [[[cs' ws'] pend'] o] eqn:Ep.
-    inversion E1; subst. cbn. eapply proc_agg; eauto.
-Qed.
